@@ -26,7 +26,7 @@ def run_seed(sid):
                            stdout=subprocess.PIPE, stderr=subprocess.STDOUT, text=True)
         if r.returncode != 0:
             return sid, {"patch": "failed"}
-        env = dict(os.environ, VERIF_REPO=root, VERIF_EVIDENCE=os.path.join(d, "evidence"))
+        env = dict(os.environ, VERIF_REPO=root, VERIF_EVIDENCE=os.path.join(d, "evidence"), VERIF_CACHE=os.path.join(d, "cache"))
         for p in PROPS:
             r = subprocess.run([os.path.join(VERIF, "check"), p, "--tier", "quick"], env=env, stdout=subprocess.PIPE,
                                stderr=subprocess.STDOUT, text=True)
